@@ -6,10 +6,25 @@ import json, os, subprocess, re
 base = "/verif/seeded/refactors"
 checks = json.load(open(base + "/checks.json"))
 rows = []
+# REFACTOR_OUT=<dir>: reuse <dir>/<name>.out where present (outputs of tools/refactor_one.sh, e.g. from a parallel run);
+# REFACTOR_KEEP=1: rows of refactors without such an output are taken over from the existing RESULTS.md
+outdir = os.environ.get("REFACTOR_OUT")
+oldrows = {}
+if os.environ.get("REFACTOR_KEEP") and os.path.exists(base + "/RESULTS.md"):
+    for l in open(base + "/RESULTS.md"):
+        c = [x.strip() for x in l.strip().strip("|").split("|")]
+        if l.startswith("| ") and len(c) == 5 and c[0] in checks:
+            oldrows[c[0]] = tuple(c)
 for name in sorted(checks):
     meta = json.load(open("%s/%s/meta.json" % (base, name)))
-    p = subprocess.run(["/verif/tools/refactor_one.sh", name] + checks[name], capture_output=True, text=True)
-    out = p.stdout + p.stderr
+    if outdir and os.path.exists("%s/%s.out" % (outdir, name)):
+        out = open("%s/%s.out" % (outdir, name)).read()
+    elif name in oldrows:
+        rows.append(oldrows[name])
+        continue
+    else:
+        p = subprocess.run(["/verif/tools/refactor_one.sh", name] + checks[name], capture_output=True, text=True)
+        out = p.stdout + p.stderr
     viol = [l for l in out.splitlines() if "VIOLATION" in l]
     obl = []
     for l in viol:
